@@ -246,6 +246,10 @@ func runPath(prog *ssa.Program, fn *ssa.Function, cfg *Config, sol *solver, pref
 	px.i = i
 	i.px = px
 	pr = px.res
+	if cfg.Goroutines {
+		i.initSched()
+		defer i.sched.shutdown()
+	}
 	defer func() {
 		pr.steps = px.steps
 		pr.stubs = px.stubsUsed
@@ -267,6 +271,9 @@ func runPath(prog *ssa.Program, fn *ssa.Function, cfg *Config, sol *solver, pref
 			pr.status, pr.detail = "unsupported", p.msg+" [in "+i.stackString()+"]"
 		case budgetExceeded:
 			pr.status, pr.detail = "budget", p.why
+		case deadlock:
+			pr.status = "ok"
+			px.escaped("deadlock: all goroutines are blocked: " + p.what)
 		case wildDeref:
 			// a memory-safety violation of the target program
 			pr.status = "ok"
